@@ -222,3 +222,13 @@ func init() {
 		}
 	})
 }
+
+func init() {
+	extraSelf = append(extraSelf, func() {
+		sc := &SchedScenario{Name: "dbg", Setup: []Action{cmdOn(0, "SUBSCRIBE", "c1")}, Threads: [][]Action{{cmdOn(0, "UNSUBSCRIBE", "c1")}, nil, {cmdOn(2, "PUBLISH", "c1", "m1")}}, Bound: 2}
+		dbgDiverge = true
+		r := exploreScenario(sc)
+		dbgDiverge = false
+		fmt.Println("dbg explore:", r.Executions, r.Diverged)
+	})
+}
